@@ -843,7 +843,6 @@ def build_jobs(thorough):
             jobs.append(('cond', (COND_SYMS, 5, first)))
         for first in range(len(COND_SYMS_SMALL)):
             jobs.append(('cond', (COND_SYMS_SMALL, 6, first)))
-            jobs.append(('cond', (COND_SYMS_SMALL, 7, first)))
     for lo in range(0, len(NUM_OPS), 4):
         jobs.append(('arith', (lo, min(len(NUM_OPS), lo + 4))))
     jobs.append(('limits', ()))
@@ -861,7 +860,7 @@ def build_jobs(thorough):
     for lo in range(0, nw, 16):
         jobs.append(('witness', (lo, min(nw, lo + 16))))
     if thorough:
-        for sv, fl in ((R.BASE, 0), (R.BASE, STANDARD), (R.WITNESS_V0, STANDARD), (R.TAPSCRIPT, 0), (R.TAPSCRIPT, STANDARD)):
+        for sv, fl in ((R.BASE, 0), (R.BASE, STANDARD), (R.WITNESS_V0, STANDARD), (R.TAPSCRIPT, STANDARD)):
             for lo in range(na):
                 jobs.append(('pairs', (sv, fl, 'flag', lo, lo + 1)))
         for lo in range(na):
@@ -965,8 +964,8 @@ def main():
             print('HARNESS-ERROR property=C12 vacuous: error reasons never expected by the reference: %s; families without both verdicts: %s' % (missing, novar))
             run.finish(rule='(vacuous run)', exhaustive=False)
             return 2
-    condlen = '5 (+6,7 over 7 symbols)' if run.thorough else '4'
-    extra = '; pairs = every ordered pair of atoms x %d stacks x 5 configs; wrap_pairs = every ordered pair x 4 stacks x 5 wrappers x 3 flag sets' % len(STACKSETS['flag']) if run.thorough else ''
+    condlen = '5 (+6 over 7 symbols)' if run.thorough else '4'
+    extra = '; pairs = every ordered pair of atoms x %d stacks x 4 configs (BASE/NONE, BASE/STANDARD, WITNESS_V0/STANDARD, TAPSCRIPT/STANDARD); wrap_pairs = every ordered pair x 4 stacks x 5 wrappers x 3 flag sets' % len(STACKSETS['flag']) if run.thorough else ''
     rule = RULE % (len(ATOMS), len(STACKSETS['main']), len(STACKSETS['flag']), condlen, len(witness_cases()), len(dispatch_flagsets()), extra)
     return run.finish(rule=rule, exhaustive=exhaustive)
 
